@@ -18,6 +18,7 @@ import GunYu.Model.Checkpoint
 import GunYu.Proofs.Checkpoint
 import GunYu.Proofs.CheckpointOps
 import GunYu.Proofs.CheckpointUpdate
+import GunYu.Proofs.CheckpointRerun
 import GunYu.Proofs.CheckpointMigrate
 import GunYu.Gen.CheckpointConsts
 
@@ -132,19 +133,135 @@ theorem gc_spares_live_id (t₀ : Target) (live : List Bytes) (before : Int) (or
     · rw [hkeys k hk]; exact h1
     · exact absurd rfl h1
 
-/-- NOT PROVED (listed under `partial`; the harness monitors it on every crash point:
-    `restart-after-update-loses-position`): what the next start really does after a cut —
-    `UpdateCheckpoint` runs again to completion on the crash state, then the position is read under
-    the LOCAL key. `update_prefix_safe` covers the read through the checkpoint hash at every prefix
-    and (through `LocOk`) accepts the crash states of a rename as initial states; that the crash
-    states re-establish ALL of `UpdPre` (`own`, `orphan`) is not shown. -/
-def update_rerun_reads_local_stmt : Prop :=
-  ∀ (ver id1 id2 loc : Bytes) (t₀ : Target) (n r : Bytes) (d : Nat) (X now now' : Int)
-    (_ : UpdPre id1 id2 loc t₀ n r d X now) (o1 o2 o1' o2' oS : List Nat)
-    (_ : d ∈ o1) (_ : d ∈ o1') (_ : d ∈ oS) (_ : -(2^63 : Int) ≤ now' ∧ now' < 2^63) (k : Nat),
-    let t₁ := applyAll t₀ ((updateReqs ver t₀ loc [id1, id2] o1 o2 now).take k)
-    let t₂ := applyAll t₁ (updateReqs ver t₁ loc [id1, id2] o1' o2' now')
-    ∃ c, getCheckpoint ver t₂ loc [id1, id2] oS = some (c, (d : Int)) ∧ c.offset = X
+/-! ### after a cut: the next start runs `UpdateCheckpoint` again, to completion, and reads under
+    the LOCAL key
+
+    `t₁` = the crash state (ANY prefix `k` of the first run's requests). Two kinds of "again":
+    a START (`nextStart`: `syncer.updateCheckpoint` orders the reported ids by the checkpoint hash,
+    then `UpdateCheckpoint(loc, ordered)`), with the ids reported in the order the first run had
+    them or — when the first run was itself a start that swapped them — in the other order; and
+    the RETRY of the same call with the same arguments (`RedisOutput.SetRunId` retries on an
+    error). Both, run to completion on every crash state, leave the position readable under the
+    LOCAL key: same offset, same database. -/
+
+theorem update_restart_reads_local (ver id1 id2 loc : Bytes) (t₀ : Target) (n r : Bytes) (d : Nat)
+    (X now now' : Int) (P : UpdPre id1 id2 loc t₀ n r d X now) (h2 : id2 ≠ [])
+    (o1 o2 o1' o2' oS : List Nat) (ho1 : d ∈ o1) (ho1' : d ∈ o1') (hoS : d ∈ oS)
+    (hnow' : -(2^63 : Int) ≤ now' ∧ now' < 2^63) (k : Nat) :
+    ∃ c, getCheckpoint ver
+        (nextStart ver (applyAll t₀ ((updateReqs ver t₀ loc [id1, id2] o1 o2 now).take k)) loc [id1, id2]
+          o1' o2' now') loc [id1, id2] oS = some (c, (d : Int)) ∧ c.offset = X := by
+  suffices h : Holds [id1, id2]
+      (nextStart ver (applyAll t₀ ((updateReqs ver t₀ loc [id1, id2] o1 o2 now).take k)) loc [id1, id2]
+        o1' o2' now') loc d X from (read_local ver h oS hoS).1
+  have hne21 : id2 ≠ id1 := fun h => P.hne h.symm
+  unfold nextStart
+  rcases crash_class ver P o1 o2 ho1 k with F | ⟨hh, hH, _⟩
+  · have hg : getHash (applyAll t₀ ((updateReqs ver t₀ loc [id1, id2] o1 o2 now).take k)).hash [id1, id2]
+        = some (n, r) := by rw [F.hash]; exact P.hn
+    rw [startIds_eq hg]
+    by_cases hr : r = id2
+    · subst hr
+      rw [if_pos ⟨rfl, hne21⟩]
+      exact rerun_on_first_swapped ver P h2 F hnow' o1' o2' ho1'
+    · rw [if_neg (fun h => hr h.1)]
+      have hr1 : r = id1 := by
+        rcases getHash_cases P.hn P.hn0 with ⟨h, _⟩ | ⟨h, _⟩
+        · exact h
+        · exact absurd h hr
+      by_cases hnl : n = loc
+      · -- nothing to do: the hash maps id1 to the LOCAL key
+        have : getHash (applyAll t₀ ((updateReqs ver t₀ loc [id1, id2] o1 o2 now).take k)).hash [id1, id2]
+            = some (loc, id1) := by rw [hg, hnl, hr1]
+        rw [updateReqs_noop ver o1' o2' now' this]
+        exact hnl ▸ F.holds
+      · exact rerun_on_first ver P F hnow' o1' o2' ho1' (fun h => absurd h hnl)
+  · rw [startIds_eq hh, if_neg (fun h => P.hne h.1), updateReqs_noop ver o1' o2' now' hh]
+    exact hH
+
+/-- the first run was a START that reported `[id2, id1]` and swapped them (the hash maps `id1`,
+    the usual restart after a fail-over: reported `[new, old]`, stored under `old`): the next start
+    reports the same `[id2, id1]`. -/
+theorem update_restart_reads_local_swapped (ver id1 id2 loc : Bytes) (t₀ : Target) (n r : Bytes) (d : Nat)
+    (X now now' : Int) (P : UpdPre id1 id2 loc t₀ n r d X now)
+    (hs : startIds t₀.hash [id2, id1] = [id1, id2])
+    (o1 o2 o1' o2' oS : List Nat) (ho1 : d ∈ o1) (ho1' : d ∈ o1') (hoS : d ∈ oS)
+    (hnow' : -(2^63 : Int) ≤ now' ∧ now' < 2^63) (k : Nat) :
+    ∃ c, getCheckpoint ver
+        (nextStart ver (applyAll t₀ ((updateReqs ver t₀ loc [id1, id2] o1 o2 now).take k)) loc [id2, id1]
+          o1' o2' now') loc [id2, id1] oS = some (c, (d : Int)) ∧ c.offset = X := by
+  suffices h : Holds [id1, id2]
+      (nextStart ver (applyAll t₀ ((updateReqs ver t₀ loc [id1, id2] o1 o2 now).take k)) loc [id2, id1]
+        o1' o2' now') loc d X from (read_local ver h oS hoS).2
+  obtain ⟨hu, m, hm⟩ := startIds_swapped P.hne P.h1 hs
+  have hr1 : r = id1 := by
+    rcases getHash_cases P.hn P.hn0 with ⟨h, _⟩ | ⟨_, h, _⟩
+    · exact h
+    · rcases hu with hu | hu <;> rw [hu] at h
+      · exact absurd h (by simp)
+      · exact absurd (Option.some.inj h).symm P.hn0
+  unfold nextStart
+  rcases crash_class ver P o1 o2 ho1 k with F | ⟨hh, hH, h3⟩
+  · have : startIds (applyAll t₀ ((updateReqs ver t₀ loc [id1, id2] o1 o2 now).take k)).hash [id2, id1]
+        = [id1, id2] := by rw [F.hash]; exact hs
+    rw [this]
+    by_cases hnl : n = loc
+    · have hg : getHash (applyAll t₀ ((updateReqs ver t₀ loc [id1, id2] o1 o2 now).take k)).hash [id1, id2]
+          = some (loc, id1) := by rw [F.hash, P.hn, hnl, hr1]
+      rw [updateReqs_noop ver o1' o2' now' hg]
+      exact hnl ▸ F.holds
+    · exact rerun_on_first ver P F hnow' o1' o2' ho1' (fun h => absurd h hnl)
+  · have hg : getHash (applyAll t₀ ((updateReqs ver t₀ loc [id1, id2] o1 o2 now).take k)).hash [id2, id1]
+        = some (loc, id1) := getHash_of_second (h3 hu) (getHash_first P.hne P.h1 hh).1
+    rw [startIds_eq hg, if_pos ⟨rfl, P.hne⟩, updateReqs_noop ver o1' o2' now' hh]
+    exact hH
+
+/-- the RETRY of the same call (same ids, same order) on every crash state. One more precondition
+    than `update_prefix_safe`: when the key stays and the hash maps the OLD id (a re-key in place),
+    the old id's fields ALONE read the position in `d` (`Carrier id2`) — the normal state of a
+    position labelled with the id the hash maps. Without it the statement is false (example `exOrph`
+    below: the old id's own entry reads 50, a stray `<new>_offset = 70` without its run id makes the
+    pair read 70; cut after the first HSET, the retry finds the new id's run id, takes the NEW id
+    for the old one and deletes what the first run wrote). -/
+theorem update_rerun_reads_local (ver id1 id2 loc : Bytes) (t₀ : Target) (n r : Bytes) (d : Nat)
+    (X now now' : Int) (P : UpdPre id1 id2 loc t₀ n r d X now)
+    (hcar : n = loc → id1 ≠ r → Carrier id2 t₀ n d X)
+    (o1 o2 o1' o2' oS : List Nat) (ho1 : d ∈ o1) (ho1' : d ∈ o1') (hoS : d ∈ oS)
+    (hnow' : -(2^63 : Int) ≤ now' ∧ now' < 2^63) (k : Nat) :
+    ∃ c, getCheckpoint ver
+        (applyAll (applyAll t₀ ((updateReqs ver t₀ loc [id1, id2] o1 o2 now).take k))
+          (updateReqs ver (applyAll t₀ ((updateReqs ver t₀ loc [id1, id2] o1 o2 now).take k)) loc [id1, id2]
+            o1' o2' now')) loc [id1, id2] oS = some (c, (d : Int)) ∧ c.offset = X := by
+  suffices h : Holds [id1, id2]
+      (applyAll (applyAll t₀ ((updateReqs ver t₀ loc [id1, id2] o1 o2 now).take k))
+        (updateReqs ver (applyAll t₀ ((updateReqs ver t₀ loc [id1, id2] o1 o2 now).take k)) loc [id1, id2]
+          o1' o2' now')) loc d X from (read_local ver h oS hoS).1
+  by_cases hbr : n ≠ loc ∨ id1 ≠ r
+  case neg =>
+    have hnl : n = loc := by
+      by_cases h : n = loc
+      · exact h
+      · exact absurd (Or.inl h) hbr
+    have hr1 : id1 = r := by
+      by_cases h : id1 = r
+      · exact h
+      · exact absurd (Or.inr h) hbr
+    have hg : getHash t₀.hash [id1, id2] = some (loc, id1) := by rw [P.hn, hnl, hr1]
+    rw [updateReqs_noop ver o1 o2 now hg]
+    simp only [List.take_nil, applyAll, List.foldl_nil]
+    have := updateReqs_noop ver o1' o2' now' hg
+    simp only [this, List.foldl_nil]
+    exact hnl ▸ P.holds
+  rcases crash_class ver P o1 o2 ho1 k with F | ⟨hh, hH, _⟩
+  · apply rerun_on_first ver P F hnow' o1' o2' ho1'
+    intro hnl _
+    have hr : id1 ≠ r := by
+      rcases hbr with h | h
+      · exact absurd hnl h
+      · exact h
+    exact F.other hnl (hcar hnl hr)
+  · rw [updateReqs_noop ver o1' o2' now' hh]
+    exact hH
 
 /-- gc asks for `exceptNewest` exactly for the ids that are live -/
 theorem gc_passes_exceptNewest (live : List Bytes) (before : Int) (t : Target) (rid cpn : Bytes)
@@ -270,6 +387,44 @@ example : startPoint [49] [exId1, exId2] [5, 2]
     = some (some (700, 2)) :=
   update_prefix_safe [49] exId1 exId2 exCp exT exCp exId2 2 700 9 ex_updPre [5, 2] [2, 5] [5, 2]
     (by decide) (by decide) 3
+
+/-- the next start / the retry after a cut at request 1, 2, 3 of that run: position 700@2 under the LOCAL key -/
+example (k : Nat) : ∃ c, getCheckpoint [49]
+    (nextStart [49] (applyAll exT ((updateReqs [49] exT exCp [exId1, exId2] [5, 2] [2, 5] 9).take k)) exCp
+      [exId1, exId2] [2, 5] [5, 2] 11) exCp [exId1, exId2] [5, 2] = some (c, ((2 : Nat) : Int)) ∧ c.offset = 700 :=
+  update_restart_reads_local [49] exId1 exId2 exCp exT exCp exId2 2 700 9 11 ex_updPre (by decide)
+    [5, 2] [2, 5] [2, 5] [5, 2] [5, 2] (by decide) (by decide) (by decide) (by decide) k
+example (k : Nat) : ∃ c, getCheckpoint [49]
+    (applyAll (applyAll exT ((updateReqs [49] exT exCp [exId1, exId2] [5, 2] [2, 5] 9).take k))
+      (updateReqs [49] (applyAll exT ((updateReqs [49] exT exCp [exId1, exId2] [5, 2] [2, 5] 9).take k)) exCp
+        [exId1, exId2] [2, 5] [5, 2] 11)) exCp [exId1, exId2] [5, 2] = some (c, ((2 : Nat) : Int)) ∧ c.offset = 700 :=
+  update_rerun_reads_local [49] exId1 exId2 exCp exT exCp exId2 2 700 9 11 ex_updPre
+    (fun _ _ => ⟨by rw [exT_cps]; decide, by rw [exT_cps]; decide⟩)
+    [5, 2] [2, 5] [2, 5] [5, 2] [5, 2] (by decide) (by decide) (by decide) (by decide) k
+/-- the retry really runs a second time after a cut at request 1 (5 requests again), the start does not
+    (it orders the ids by the hash, which still maps the old id: nothing to do) -/
+example : (updateReqs [49] (applyAll exT ((updateReqs [49] exT exCp [exId1, exId2] [5, 2] [2, 5] 9).take 1)) exCp
+    [exId1, exId2] [2, 5] [5, 2] 11).length = 4 := by decide
+example : startIds (applyAll exT ((updateReqs [49] exT exCp [exId1, exId2] [5, 2] [2, 5] 9).take 1)).hash
+    [exId1, exId2] = [exId2, exId1] := by decide
+
+/-- `update_rerun_reads_local` needs `Carrier id2`: the hash maps the old id, whose own entry in
+    database 2 reads 50; a stray `<new>_offset = 70` (no run id of the new id) makes the pair read
+    70@2. Cut after the first HSET, then the same call again: it reads run id = NEW id, treats it
+    as the old one and deletes the new id's fields — the position falls back to 50. (The START
+    does not: it puts the mapped id first and has nothing to do.) -/
+def exOrph : Target :=
+  { hash := [(exId2, exCp)],
+    cps := fun db n => if n = exCp ∧ db = 2 then
+      [⟨exId2, .runid, exId2⟩, ⟨exId2, .offset, [53, 48]⟩, ⟨exId1, .offset, [55, 48]⟩] else [] }
+example : startPoint [49] [exId1, exId2] [2] exOrph = some (some (70, 2)) := by decide
+example : startPoint [49] [exId1, exId2] [2]
+    (applyAll (applyAll exOrph ((updateReqs [49] exOrph exCp [exId1, exId2] [2] [2] 9).take 1))
+      (updateReqs [49] (applyAll exOrph ((updateReqs [49] exOrph exCp [exId1, exId2] [2] [2] 9).take 1)) exCp
+        [exId1, exId2] [2] [2] 11)) = some (some (50, 2)) := by decide
+example : startPoint [49] [exId1, exId2] [2]
+    (nextStart [49] (applyAll exOrph ((updateReqs [49] exOrph exCp [exId1, exId2] [2] [2] 9).take 1)) exCp
+      [exId1, exId2] [2] [2] 11) = some (some (70, 2)) := by decide
 
 /-- the preconditions of `gc_prefix_safe` are met; gc deletes the stale entry of database 5 -/
 example : GcPre exId1 exId2 [exId1, exId2] exT exCp exId2 2 700 :=
